@@ -3,13 +3,17 @@ package props
 import (
 	"bytes"
 	"fmt"
+	"go/parser"
 	"go/token"
+	"os"
+	"path/filepath"
 	"reflect"
 
 	"github.com/dave/dst"
 	"github.com/dave/dst/decorator"
 	"github.com/dave/dst/decorator/resolver/goast"
 	"github.com/dave/dst/decorator/resolver/simple"
+	"golang.org/x/tools/go/packages"
 
 	"verif/internal/corpus"
 	"verif/internal/fw"
@@ -424,6 +428,61 @@ func runC06(c *fw.Ctx) {
 				c.Observe("shared_positions", "two-files:"+sh.name)
 			})
 		}
+	}
+
+	// (c1c) the same through Package.Save: the files of one package are one tree for the purpose of
+	// the rejection, whichever way they are restored
+	for i, sh := range cross {
+		if !c.Mine(i) {
+			continue
+		}
+		c.Case("share-two-files:"+sh.name+"/Package.SaveWithResolver", func() {
+			run := func(cl bool) string {
+				dir := filepath.Join(c.WorkDir, fmt.Sprintf("c06save-%d-%v", i, cl))
+				if os.MkdirAll(dir, 0755) != nil {
+					return "setup"
+				}
+				defer os.RemoveAll(dir)
+				d := decorator.NewDecorator(token.NewFileSet())
+				pkg := &decorator.Package{Package: &packages.Package{PkgPath: "example.com/self"}, Decorator: d, Dir: dir}
+				var fs []*dst.File
+				for k := 0; k < 2; k++ {
+					fn := filepath.Join(dir, fmt.Sprintf("f%d.go", k))
+					if os.WriteFile(fn, []byte(twoSrc), 0644) != nil {
+						return "setup"
+					}
+					f, err := d.ParseFile(fn, nil, parser.ParseComments)
+					if err != nil {
+						return "setup"
+					}
+					fs = append(fs, f)
+				}
+				sh.do(fs[0], fs[1], cl)
+				pkg.Syntax = fs
+				var err error
+				sig, _ := fw.Try(func() { err = pkg.SaveWithResolver(simple.New(map[string]string{})) })
+				if sig != "" {
+					return sig
+				}
+				if err != nil {
+					return "error: " + err.Error()
+				}
+				return ""
+			}
+			if res := run(false); res == "setup" {
+				return
+			} else if res == "" {
+				c.Violate("shared-node-accepted", "shared-node-accepted:two-files:"+sh.name+":Package.Save", "one node ("+sh.name+") occurs in two files of a package and Package.SaveWithResolver wrote both files", twoSrc)
+			} else {
+				c.Count("shared_rejected", 1)
+			}
+			if res := run(true); res != "" && res != "setup" {
+				c.Violate("cloned-node-rejected", "cloned-node-rejected:two-files:"+sh.name+":Package.Save", sh.name+": a package whose second file holds a clone does not save: "+res, twoSrc)
+			} else if res == "" {
+				c.Count("cloned_printed", 1)
+				c.Nontrivial("share-two-files", sh.name, "Package.Save")
+			}
+		})
 	}
 
 	// (c2) sharing under import management: a path-carrying identifier is restored through the
